@@ -632,6 +632,9 @@ var specials = []Case{
 	{Stream: "special", Label: "backward go to an integer tag of a dolist body", Src: "(let ((n 0)) (dolist (v '(1 2)) (vtr 1) 10 (setq n (1+ n)) (vtr 2) (if (< n 2) (go 10)) (vtr 3)))"},
 	{Stream: "special", Label: "return-from re-entered by its own cleanup, closure called twice", Src: "(let ((f nil)) (setq f (lambda (k) (block b (unwind-protect (return-from b k) (vtr 1) (if (eql k 2) (funcall f 1)) (if (eql k 1) (funcall f 0)))))) (list (funcall f 2) (funcall f 2) (funcall f 1)))"},
 	{Stream: "special", Label: "one return-from form run by a closure in the protected form and in the cleanup", Src: "(defun c07-g (k) (block b (return-from b k)))\n(list (block a (unwind-protect (return-from a (c07-g 30)) (vtr (c07-g 10)))) (block a (unwind-protect (return-from a (c07-g 30)) (vtr (c07-g 10)))))"},
+	{Stream: "special", Label: "defun inside a block returns from that block, evaluated a second time (redefinition)", Src: "(list (block b (defun c07-g (p) (vtr 2) (return-from b 7) (vtr 9)) (vtr 1) (c07-g 1) (vtr 3)) (block b (defun c07-g (p) (vtr 5) (return-from b 8) (vtr 9)) (vtr 4) (c07-g 1) (vtr 6)))"},
+	{Stream: "special", Label: "defun inside a block and a let, exit through cleanups, evaluated three times", Src: "(let ((acc nil)) (dotimes (i 3) (push (block outer (let ((u i)) (defun c07-g (p) (unwind-protect (return-from outer (+ p 10)) (vtr 101))) (unwind-protect (progn (vtr 1) (c07-g u) (vtr 2)) (vtr 102)))) acc)) acc)"},
+	{Stream: "special", Label: "defun inside a nil block uses return, evaluated twice", Src: "(list (dolist (v '(1 2)) (defun c07-g (p) (vtr 2) (return 7) (vtr 9)) (vtr 1) (c07-g 1) (vtr 3)) (dolist (v '(1 2)) (defun c07-g (p) (vtr 5) (return 8) (vtr 9)) (vtr 4) (c07-g 1) (vtr 6)))"},
 	{Stream: "special", Label: "stream closed on return-from", Src: "(block a (let ((u 1)) (with-open-file (f1 \"c07-in.txt\" :direction :input) (vreg 1 f1) (vtr 1) (return-from a 5))) (vtr 2))"},
 }
 
